@@ -206,6 +206,76 @@ def rcvHandle (o : Op) (tr : String) : String :=
         else if tr == w then "ok" else s!"reject:want={w}"
   | none => "bad-op"
 
+/-! ## pair: two real muxes; events D<code>.<len> (A→B data) and J<n> (B→A window adjust) in writePacket order -/
+
+structure PairSt where
+  credit : Nat          -- initial window + adjusts put on the wire so far
+  used : Nat
+  adj : Nat             -- Σ adjusts
+  writers : List Writer
+
+def pairEvent (st : PairSt) (ev : String) : Except String PairSt :=
+  match ev.toList with
+  | 'D' :: rest =>
+    let body := String.ofList rest
+    if body.endsWith "!" then .error "violation:stream_integrity (payload differs from what the writer passed, or out of order)" else
+    match body.splitOn "." with
+    | [c, l] =>
+      match c.toNat?, l.toNat? with
+      | some code, some len =>
+        match st.writers.find? (·.code = code) with
+        | none => .error s!"reject:no-writer code={code}"
+        | some w =>
+          match w.sizes with
+          | [] => .error s!"reject:writer-finished code={code}"
+          | r :: more =>
+            if len = 0 then .error "reject:empty-data-packet"
+            else if len > channelMaxPacket then .error s!"violation:never_exceeds_window (len {len} > peer max packet)"
+            else if st.used + len > st.credit then
+              .error s!"violation:never_exceeds_window (len {len} > credit {st.credit - st.used})"
+            else if len > r then .error "reject:more-than-written"
+            else
+              let w' := { w with sizes := if len = r then more else (r - len) :: more, written := w.written + len }
+              .ok { st with used := st.used + len, writers := updWriter st.writers code (fun _ => w') }
+      | _, _ => .error "reject:bad-event"
+    | _ => .error "reject:bad-event"
+  | 'J' :: rest =>
+    match (String.ofList rest).toNat? with
+    | none => .error "reject:bad-event"
+    | some n =>
+      if n = 0 then .error "reject:zero-adjust"
+      -- the receiver can only return what it has received and consumed: Σ adjusts ≤ payload received ≤ payload sent
+      else if st.adj + n > st.used then .error "reject:adjust-exceeds-consumed"
+      -- credit conservation ⇒ the sender's window never exceeds the initial window (window_add_no_overflow)
+      else if st.credit + n - st.used > channelWindowSize then .error "violation:window-exceeds-initial"
+      else .ok { st with credit := st.credit + n, adj := st.adj + n }
+  | _ => .error s!"reject:unexpected-event {ev}"
+
+def pairHandle (o : Op) (tr : String) : String :=
+  match o.get? "writers" with
+  | none => "bad-op"
+  | some ws =>
+    match (ws.splitOn ",").mapM parseWriter with
+    | none => "bad-op"
+    | some writers =>
+      let evs := tr.splitOn ","
+      if evs.any (· == "E") then "violation:receiver_never_complains (a mux loop ended: window or packet-size error between two compliant peers)" else
+      let body := evs.filter (fun e => e.startsWith "D" || e.startsWith "J")
+      let ws := evs.filter (·.startsWith "W")
+      let rs := evs.filter (·.startsWith "R")
+      match body.foldlM pairEvent ⟨channelWindowSize, 0, 0, writers⟩ with
+      | .error e => e
+      | .ok st =>
+        let wantW := writers.map (fun w => s!"W{w.code}={w.total}.ok")
+        let wantR := (writers.filter (fun w => w.code ≤ 1 && w.total > 0)).map (fun w => (w.code, s!"R{w.code}={w.total}.ok"))
+        let wantR := ((wantR.toArray.qsort (fun a b => a.1 < b.1)).toList).map (·.2)
+        if ws != wantW then s!"reject:write-results want={",".intercalate wantW}"
+        else if rs != wantR then s!"violation:stream_integrity (read results, want {",".intercalate wantR})"
+        else if !st.writers.all (·.sizes.isEmpty) then "reject:data-missing-on-the-wire"
+        -- everything was read: what the receiver still holds back is below the adjust threshold
+        else if st.used - st.adj > 3 * channelMaxPacket then "reject:window-not-returned"
+        else "ok"
+
 def handle (line : String) : String :=
   match line.splitOn "\t" with
   | [opS, tr] =>
@@ -214,6 +284,7 @@ def handle (line : String) : String :=
     if tr == "panic" || tr == "crash" then s!"reject:{tr}" else
     if o.cmd == "snd" then sndHandle o tr
     else if o.cmd == "rcv" then rcvHandle o tr
+    else if o.cmd == "pair" then pairHandle o tr
     else "bad-op"
   | _ => "bad-op"
 
